@@ -141,6 +141,8 @@ def plan_cases(tier, seed):
     for ctype in TYPES:
         core = ctype in CORE_TYPES
         for shape in SHAPES:
+            if shape == "short-body-warm" and TYPES[ctype].get("http2"):
+                continue  # only HTTP/1.1 can tell locally that a body is shorter than its Content-Length
             for flavor in flavors:
                 for context in contexts_for(ctype, flavor):
                     if tier == "quick":
